@@ -195,6 +195,60 @@ def check_model(chk: harness.Check, name: str, text: str, rng, n_instances: int)
         sdk.close()
 
 
+#: names of the generated traversal and accessor members; a model that uses one of them
+#: for a property or a method must be refused -- if the front end lets it through, the
+#: generated SDK has to work all the same, and it is checked like any other model
+RESERVED_MEMBERS = ["descend", "descend_once", "accept", "transform", "over_parts_or_empty"]
+
+
+def reserved_member_model(member: str, as_method: bool) -> str:
+    if as_method:
+        cabin = f'''
+class Cabin(DBC):
+    parts: Optional[List["Floor"]]
+
+    @implementation_specific
+    def {member}(self) -> bool:
+        raise NotImplementedError()
+
+    def __init__(self, parts: Optional[List["Floor"]] = None) -> None:
+        self.parts = parts
+'''
+    else:
+        cabin = f'''
+class Cabin(DBC):
+    parts: Optional[List["Floor"]]
+    {member}: Optional["Floor"]
+
+    def __init__(
+        self, parts: Optional[List["Floor"]] = None, {member}: Optional["Floor"] = None
+    ) -> None:
+        self.parts = parts
+        self.{member} = {member}
+'''
+    return mmgen.IMPORTS + f'''
+class Floor(DBC):
+    level: int
+
+    def __init__(self, level: int) -> None:
+        self.level = level
+
+{cabin}
+
+class Building(DBC):
+    cabins: List["Cabin"]
+    main_cabin: Optional["Cabin"]
+
+    def __init__(self, cabins: List["Cabin"], main_cabin: Optional["Cabin"] = None) -> None:
+        self.cabins = cabins
+        self.main_cabin = main_cabin
+
+
+__version__ = "dummy"
+__xml_namespace__ = "https://dummy.com"
+'''
+
+
 def worker(args) -> Dict[str, Any]:
     argv, shard, n_shards, n_models, n_instances = args[:-1]
     mins = args[-1]
@@ -204,6 +258,12 @@ def worker(args) -> Dict[str, Any]:
     models: List[Tuple[str, str]] = []
     if shard == 0:
         models += corpus.small_common()
+    probes = [(m, False) for m in RESERVED_MEMBERS] + [(m, True) for m in RESERVED_MEMBERS[:4]]
+    for k, (member, as_method) in enumerate(probes):
+        if k % n_shards == shard:
+            chk.count("reserved_member_probes")
+            models.append((f"reserved-member/{member}/{'method' if as_method else 'property'}",
+                           reserved_member_model(member, as_method)))
     for i in range(shard, n_models, n_shards):
         profile = mmgen.Profile(
             sdk_safe=True, n_classes=(3, 8), p_list=0.45, p_optional=0.45, p_invariant=0.1,
@@ -215,7 +275,17 @@ def worker(args) -> Dict[str, Any]:
         if chk.should_stop(budget):
             chk.count("models_skipped_for_budget", len(models) - idx)
             break
-        check_model(chk, name, text, chk.rng("inst", name), n_instances)
+        try:
+            check_model(chk, name, text, chk.rng("inst", name), n_instances)
+        except Exception as err:  # noqa
+            # a traversal or accessor member of the generated SDK raised where the oracle
+            # only calls what the generator documents
+            import traceback as tb
+
+            chk.violation(
+                f"sdk-member-raised/{type(err).__name__}|{harness.normalize_message(str(err))[:60]}",
+                {"model": name, "text": text, "traceback": tb.format_exc()[-2500:]},
+            )
     return chk.export()
 
 
